@@ -6,7 +6,7 @@
 
 use crate::real::{self, mv_back};
 use refmodel::report::Collector;
-use crate::workload::{self, Theme};
+use refmodel::workload::{self, Theme};
 use chess_engine::verif::{self, Event, Stage};
 use chess_engine::{Engine, Score, ThreeFold, Timeout};
 use chess_movegen::Board;
